@@ -61,10 +61,10 @@ pub fn check(tier: Tier) -> Check {
     }
 }
 
-fn streams(name: String, params: Value) -> Scenario {
+pub fn streams(prop: &'static str, name: String, params: Value) -> Scenario {
     let depth = params["depth"].as_u64().unwrap_or(4) as usize;
     Box::new(move |chz, ex| {
-        let mut sys = Sys::new("C15", &name, chz);
+        let mut sys = Sys::new(prop, &name, chz);
         sys.params = params.clone();
         sys.m.check_client_acks = false;
         sys.bring_up(vec![]);
@@ -238,7 +238,7 @@ pub fn scenario(name: &str, params: &Value) -> Scenario {
         return abandoned_queued("C15", name.to_string(), params.clone());
     }
     if name == "C15/streams" {
-        return streams(name.to_string(), params.clone());
+        return streams("C15", name.to_string(), params.clone());
     }
     if name == "C15/rolling" {
         return super::c07::rolling("C15", name.to_string(), params.clone());
